@@ -17,6 +17,16 @@ obj[counter + d]); TLC checks SplitterKeepsOwn (the kept components are those of
 sub-function, i.e. the block is the one replace_argument=True builds) in every universe, and
 exhibits the counterexample when the counter advances by the REFERENCE size (OffsetBy).
 
+Interior facets (universes with sides = 2, spec constant Sides): the value vector of a side of the form is
+that of the macro element of a facet -- the '+' traces of all components, then their '-' traces -- the
+restrictions x('+') / x('-') are constructors (rp / rm: the value of x with every terminal replaced by
+its trace on that side; of sub-functions, of whole mixed arguments, of compound expressions, of
+coefficients, whose '-' trace is their value in the next coefficient environment), FormSplitter.restricted
+is transcribed in SZ (the operand is split, a Zero stays, anything else is restricted to the side of the
+visited node), and block (i, j) is the restriction of the facet tensor to both traces of sub-functions
+i / j.  Interior facet integrals take integrands in which every Argument / Coefficient is restricted
+exactly once, cell and exterior facet integrals integrands without restrictions; one form may mix them.
+
 Binding: every printed (form, predicted blocks) is rebuilt with real ufl objects -- MixedElement
 spaces with `split`, MixedFunctionSpace with TestFunctions / TrialFunctions -- and
 `extract_blocks(form)`, `extract_blocks(form, i, j)`, `extract_blocks(form, i)` (each with both
@@ -74,7 +84,7 @@ def facet_universes(tier):
     f, W2 = ("f", ()), ("W", (2,))
     EB = ("extract_blocks",)
     noacts = ("two", "w_u", "w_v", "w_u0", "w_u1", "w_u2", "w_v0", "w_v1", "w_v2")
-    deep_ops = {"add", "sub", "mul", "neg", "inner", "dot", "index", "conj", "list", "rp", "rm"}
+    deep_ops = {"add", "sub", "mul", "neg", "inner", "dot", "index", "conj", "list", "var", "isum", "rp", "rm"}
     out = []
 
     def exhaustive(name, mixed, vsub, usub, usable, ops, **kw):
@@ -85,27 +95,28 @@ def facet_universes(tier):
         out.append(Uni(name, mixed, vsub, usub, [f], ops, 2, EB, exclude=noacts + raw + hidden, pre=pre, sides=2, **kw))
 
     # MixedFunctionSpace: the jump of the first test sub-function, one trace of the second; the sum of the traces of the
-    # second trial sub-function, one trace of the first; both traces of the coefficient
-    exhaustive("ms-dS", "space", [(), ()], [(), ()], ("v0+-", "v1-", "u0+", "u1++", "f+", "f-"), {"sub", "mul"})
+    # second trial sub-function, one trace of the first; the jump of the coefficient
+    exhaustive("ms-dS", "space", [(), ()], [(), ()], ("v0+-", "v1-", "u0+", "u1++", "f+-"), {"add", "mul"})
     if not q:
         exhaustive("me-dS", "element", [(), ()], [(), ()], ("v_0+-", "v_1-", "u_0+", "u_1++", "f+", "f-"), {"sub", "mul"})
         exhaustive("me-dS-rect", "element", [(), ()], [(), (), ()], ("v_0++", "v_1+", "v_1-", "u_0-", "u_1+-", "u_2+", "f-"), {"add", "mul"})
-        exhaustive("ms-dS-lin", "space", [(), (), ()], None, ("v0+-", "v1++", "v2+", "v2-", "f+", "f-"), {"add", "sub", "mul"})
+        exhaustive("ms-dS-lin", "space", [(), (), ()], None, ("v0+-", "v1++", "v2+", "v2-", "f+", "f-"), {"sub", "mul"})
     # sampled programs: the restrictions are constructors (of sub-functions, of whole mixed arguments, of compound
     # expressions), next to the restricted sub-functions; cell, exterior facet and interior facet integrals in one form
     def pieces(*names):
         return [n + sd for n in names for sd in ("+", "-")]
 
     kp = [(5, 6), (1, 5), (5, 2)]
-    n1, n2, d = (260, 200, 5) if q else (2500, 2500, 6)
+    n1, n2, d = (200, 0, 5) if q else (800, 800, 6)
     pre, _ = facet_pre(*pieces(*("v_0", "v_1", "u_0", "u_1", "f", "W")))
     out.append(Uni("sample-me-dS" if q else "deep-me-dS", "element", [(), (2,)], [(), (2,)], [f, W2], deep_ops, 0, EB, keypairs=kp, exclude=noacts, pre=pre, sides=2, simulate=n1, depth=d))
     pre, _ = facet_pre(*pieces(*("v0", "v1", "u0", "u1", "f", "W")))
-    out.append(Uni("sample-ms-dS" if q else "deep-ms-dS", "space", [(), (2,)], [(2,), ()], [f, W2], deep_ops, 0, EB, keypairs=kp, exclude=noacts, pre=pre, sides=2, simulate=n2, depth=d))
+    if n2:
+        out.append(Uni("deep-ms-dS", "space", [(), (2,)], [(2,), ()], [f, W2], deep_ops, 0, EB, keypairs=kp, exclude=noacts, pre=pre, sides=2, simulate=n2, depth=d))
     if not q:
         pre, _ = facet_pre(*pieces(*("v_0", "v_1", "v_2", "u_0", "u_1", "f", "X")))
         out.append(Uni("deep-me-dS-refsize", "element", [(), (2, 2), (2,)], [(3,), ()], [f, W2, ("X", (3,)), ("G", (2, 2))], deep_ops, 0, EB, keypairs=kp, vkinds=["P", "sym", "P"], ukinds=["curl", "P"], gdim=3,
-                       exclude=noacts, pre=pre, sides=2, simulate=700, depth=5))
+                       exclude=noacts, pre=pre, sides=2, simulate=250, depth=5))
     return out
 
 
@@ -613,13 +624,16 @@ def run(ctx, args):
         "spaces also with symmetric 2x2 tensor sub-elements and, on a triangle mesh immersed in 3D, covariant Piola mapped vector "
         "sub-elements -- reference value size 3 / 2, physical value size 4 / 3 -- in first and middle position), one or "
         "two integrals (thorough tier additionally programs of up to 6 constructor calls drawn with the run's seed and validated by "
-        "TLC), with the predicted blocks; each form is rebuilt with real ufl objects and extract_blocks(form), (form, i, j), (form, i) "
+        "TLC), and over the traces on the two sides of an interior facet (restrictions x('+') / x('-') of sub-functions, whole mixed "
+        "arguments, coefficients and compound expressions, jumps and sums of the two traces; dS integrals alone and next to dx / ds "
+        "integrals), with the predicted blocks; each form is rebuilt with real ufl objects and extract_blocks(form), (form, i, j), (form, i) "
         "are called with both settings of replace_argument, formsplitter.extract_blocks(form, arity=..) with the form's arity; every returned block is assembled at every unit-vector point on its own "
         "sub-space arguments in 2 coefficient environments; a case is one form; non-trivial = the form has a non-zero block; "
         "distinct = distinct (universe, program, integrals)"
     )
     ctx.assume("assembly at a point: Arguments are real valued terminals; the value vector of a mixed space is the concatenation of the sub-function values; per (integral type, subdomain id); vf/sem.py reads real expressions and is compared with TLC's table of every input form")
-    ctx.assume("forms: purely bilinear (every monomial of degree (1,1)) or purely linear (degree (1,0)); cell and exterior facet integrals, no restrictions / derivatives")
+    ctx.assume("forms: purely bilinear (every monomial of degree (1,1)) or purely linear (degree (1,0)); cell, exterior facet and interior facet integrals, no derivatives; interior facet integrands have every Argument and Coefficient below exactly one restriction (ufl requires restricted Arguments there and refuses nested restrictions), the other integrands have no restriction")
+    ctx.assume("assembly on an interior facet: the rows / columns are the '+' traces of all components followed by their '-' traces; at a slot the trace of the argument on the slot's side is the unit vector, its trace on the other side zero (vf/sem.py passes the side to the terminals); the two traces of a coefficient are independent values (the '-' trace = its value in the next environment); block (i, j) contains both traces of sub-functions i / j")
     ctx.assume("sub-elements with a non-identity pull back: the value vector of the sub-function is its PHYSICAL value (ufl.split and the flattened mixed argument have one component per physical component); blocks on a symmetric tensor sub-function are compared at symmetric values only (E01 + E10 instead of E01 and E10); a separately requested block that equals (Form.equals) the judged block of extract_blocks(form) shares its verdict")
     ctx.assume("a block that is None or an empty form counts as zero; a returned block may only contain the Arguments of its own sub-spaces (MixedElement + replace_argument: Arguments on FunctionSpace(mesh, sub_element); MixedFunctionSpace: the original arguments of the block's sub-spaces; MixedElement with replace_argument=False: the original flattened arguments, assembled at ALL their components, the block must vanish on the components of the other sub-functions)")
     ctx.assume("expected structure: extract_blocks(form) -> k x k' nested tuple for bilinear forms (k, k' sub-spaces of the test / trial space), k-tuple for linear forms; extract_blocks(form, i) of a bilinear form -> row i (docstring of ufl.algorithms.formsplitter.extract_blocks)")
